@@ -1,11 +1,49 @@
 /-
 Props/C17 — YAML position tables return recorded positions under any access order.
-Property theorems only; definitions and helper lemmas live in Spec/YamlPos.lean, Proof/YamlPos.lean.
+Property theorems only; definitions (`tableFn`, `WF`, `SeqInv`, `FlavorOk`) and helper lemmas live
+in Proof/YamlPos.lean.  `pc`/`siw` are the per-word primitives `u64::count_ones` /
+`select_in_word`, assumed exact (`hpc`, `hsiw`; C02 proves the kernels).
 -/
-import SuccinctlyVerif.Model.YamlPos
+import SuccinctlyVerif.Proof.YamlPos
 import SuccinctlyVerif.Model.Words
 namespace SV.Props.C17
 open SV SV.YamlPos
+
+variable {pc : Word → Nat} {siw : Word → Nat → Nat} {rate : Nat} {F : Flavor}
+
+/-- The freshly constructed cursor (`SequentialCursor::default()`) satisfies the invariant `SeqInv`
+(the two documented invariants + cached-select consistency) for every table. -/
+theorem seqInv_default (F : Flavor) (T : Table) : SeqInv F T Cursor.init := seqInv_init F T
+
+/-- `inv_step`: whichever path `get` takes (sequential, gap, backward jump), its answer is the
+history-free table function `tableFn` of the index — never a panic — and the stored cursor satisfies
+`SeqInv` again.  Holds for both flavors (`AdvancePositions`, `CompactEndPositions`). -/
+theorem inv_step (hpc : ∀ w, pc w = popcount w) (hsiw : ∀ w k, siw w k = selectInWordSpec w k)
+    (hF : FlavorOk pc F) {T : Table} (wf : WF pc rate T) {c : Cursor} (inv : SeqInv F T c) (i : Nat) :
+    (get pc siw rate F T c i).1 = .val (tableFn F T i) ∧ SeqInv F T (get pc siw rate F T c i).2 :=
+  get_spec hpc hsiw hF wf inv i
+
+/-- `history_irrelevant`: for a well-formed table, the answer to a lookup of `i` after an arbitrary
+earlier lookup list `h₁` equals the answer after any other list `h₂` (any order, gaps, backward
+jumps, repeats, out-of-range indices). -/
+theorem history_irrelevant (hpc : ∀ w, pc w = popcount w) (hsiw : ∀ w k, siw w k = selectInWordSpec w k)
+    (hF : FlavorOk pc F) {T : Table} (wf : WF pc rate T) (h₁ h₂ : List Nat) (i : Nat) :
+    (get pc siw rate F T (runFrom pc siw rate F T Cursor.init h₁).2 i).1
+      = (get pc siw rate F T (runFrom pc siw rate F T Cursor.init h₂).2 i).1 := by
+  have a := (runFrom_spec hpc hsiw hF wf _ (seqInv_init F T) h₁).2
+  have b := (runFrom_spec hpc hsiw hF wf _ (seqInv_init F T) h₂).2
+  rw [(get_spec hpc hsiw hF wf a i).1, (get_spec hpc hsiw hF wf b i).1]
+
+/-- Every answer of an arbitrary lookup history is the table function of its own index. -/
+theorem history_answers (hpc : ∀ w, pc w = popcount w) (hsiw : ∀ w k, siw w k = selectInWordSpec w k)
+    (hF : FlavorOk pc F) {T : Table} (wf : WF pc rate T) (hist : List Nat) :
+    (runFrom pc siw rate F T Cursor.init hist).1 = hist.map (fun i => Ans.val (tableFn F T i)) :=
+  (runFrom_spec hpc hsiw hF wf _ (seqInv_init F T) hist).1
+
+/-- Both flavors satisfy what the proofs need (`scan_select` = per-word scan by Proof/Scan; the
+`as u32` cast is idempotent). -/
+theorem flavors_ok (pc : Word → Nat) : FlavorOk pc (openFlavor pc) ∧ FlavorOk pc (endFlavor pc) :=
+  ⟨openFlavor_ok pc, endFlavor_ok pc⟩
 
 /-- Finding F4, refutation witness on the model of the code: with start positions `[0, 64]` and
 `text_len = 64` the open-position table answers `None` for node 1 (recorded start 64). -/
@@ -13,9 +51,16 @@ theorem f4_witness :
     (get popc selectCtz 256 (openFlavor popc) (buildOpen popc selectCtz 256 [0, 64] 64) Cursor.init 1).1
       = .val none := by decide +kernel
 
-/-- The same sequence one byte longer is answered exactly. -/
+/-- The same sequence one byte longer is answered exactly (non-vacuity of the partial theorem). -/
 example :
     (get popc selectCtz 256 (openFlavor popc) (buildOpen popc selectCtz 256 [0, 64] 65) Cursor.init 1).1
       = .val (some 64) := by decide +kernel
+
+/-- Non-vacuity of the history theorems: a backward jump and a repeat on a concrete table. -/
+example :
+    (runFrom popc selectCtz 256 (openFlavor popc) (buildOpen popc selectCtz 256 [0, 0, 9, 9, 70] 100)
+      Cursor.init [4, 1, 1, 3, 9, 0]).1
+      = [.val (some 70), .val (some 0), .val (some 0), .val (some 9), .val none, .val (some 0)] := by
+  decide +kernel
 
 end SV.Props.C17
